@@ -131,7 +131,7 @@ func (e *Explorer) Run(prefix []int, expect []Point, tracing bool) *Execution {
 	<-s.doneCh
 	x := collect(s)
 	if x.diverged != "" {
-		Fatal(fmt.Sprintf("nondeterministic harness: %s (prefix %v)", x.diverged, prefix))
+		Fatal(fmt.Sprintf("schedule cannot be replayed (invalid schedule or nondeterministic harness): %s (prefix %v)", x.diverged, prefix))
 	}
 	for i := range x.Trace {
 		x.Trace[i].resolve()
@@ -161,6 +161,7 @@ func install(s *sched, t0 *thread) {
 func collect(s *sched) collected {
 	// the thread that ended the execution may still be a few instructions away from parking
 	mode = modeUnwind
+	close(s.lingerCh) // threads whose function has returned may leave now
 	deadline := time.Now().Add(20 * time.Second)
 	for _, t := range s.threads {
 		t.abandon = true
